@@ -198,6 +198,60 @@ func runSearch(a map[string]string) {
 			}
 		}
 	}
+	// S11 rare hash-to-point behaviour: messages needing many try-and-increment candidates
+	// (committed pool + a fresh grind; the reference only COUNTS candidates). The oracles need no
+	// reference at all: the honest signature verifies, the identity signature and another key's
+	// signature do not, and Sign never returns the identity.
+	{
+		tries := hx.ArgInt(a, "grind", 30000)
+		msgs := append(grindRare(r, tries, 3, ""), rarePoolMsgs()...)
+		zero := make([]byte, 64)
+		for i, m := range msgs {
+			sk, sk2 := g.sk(), g.sk()
+			if i%3 == 0 {
+				sk = big.NewInt(1)
+			}
+			for sk2.Cmp(sk) == 0 {
+				sk2 = g.sk() // "another key" must be another key
+			}
+			results[fmt.Sprintf("rare:candidates=%02d", m.count)]++
+			pkb := groupsig.GeneratePubkey(seckeyOf(sk)).Serialize()
+			pk2b := groupsig.GeneratePubkey(seckeyOf(sk2)).Serialize()
+			sg := groupsig.Sign(seckeyOf(sk), m.msg)
+			sb := sg.Serialize()
+			s2 := groupsig.Sign(seckeyOf(sk2), m.msg)
+			type tc struct {
+				what   string
+				pk, sb []byte
+				want   string
+			}
+			cases := []tc{
+				{"honest", pkb, sb, "1"},
+				{"zero-64", pkb, zero, "0"},
+				{"zero-64-other-key", pk2b, zero, "0"},
+				{"other-key", pkb, s2.Serialize(), "0"},
+				{"honest-under-other-key", pk2b, sb, "0"},
+			}
+			evals++
+			if bytes.Equal(sb, zero) || len(sb) != 64 {
+				emit(viol{"sign-returns-identity", fmt.Sprintf("Sign(sk, m) is the identity element for a message whose hash needs %d candidates", m.count),
+					map[string]string{"line": "sign " + sk.String() + " " + hx.Hex(m.msg), "class": fmt.Sprintf("rare-hash(%d)", m.count), "message": string(m.msg)}})
+			}
+			for _, c := range cases {
+				got := hx.Guard(func() string { return b01(verify(c.pk, m.msg, c.sb)) })
+				evals++
+				if got == c.want {
+					continue
+				}
+				key := "forged-sig-accepted:" + c.what
+				if c.want == "1" {
+					key = "honest-signature-rejected"
+				}
+				emit(viol{key, fmt.Sprintf("message %q (hash needs %d try-and-increment candidates): VerifySig returned %s for %s, expected %s", string(m.msg), m.count, got, c.what, c.want),
+					map[string]string{"line": "verify " + hx.Hex(c.pk) + " " + hx.Hex(m.msg) + " " + hx.Hex(c.sb), "class": fmt.Sprintf("rare-hash(%d):%s", m.count, c.what), "expected": c.want, "observed": got, "message": string(m.msg)}})
+			}
+		}
+	}
 	classOrder := []int{4, 5, 6, 1, 3, 0, 2, 7}
 	for i := 0; i < n; i++ {
 		sk := g.sk()
